@@ -750,7 +750,50 @@ def classify_failure(mol, s0, s1):
         ('/all-atoms-distinct' if len(set(cls.values())) == len(cls) else '/symmetric-but-exchangeable')
 
 
-def compare(ctx, name, base, s0, h0, kind, other, detail):
+def second_description(rng, m, tries=8):
+    """look for a second description of `m` whose canonical string differs: (other, mapping|None, kind) or None"""
+    s0 = str(m)
+    for _ in range(tries):
+        c, mp = reorder(rng, m)
+        if str(c) != s0:
+            return c, mp, 'renumber+reinsert'
+    for _ in range(2):
+        try:
+            t, m2 = reread_own(rng, m)
+        except Exception:  # noqa
+            continue
+        if str(m2) != s0 and census(m2) == census(m):
+            return m2, None, 'reread-own-random-spelling'
+    return None
+
+
+def shrink(rng, mol, sig, budget=60):
+    """greedy atom deletion while a differing second description with the same signature still exists (in domain)."""
+    cur, best = mol, None
+    progress = True
+    while progress and budget > 0 and len(cur) > 2:
+        progress = False
+        for n in sorted(cur._atoms, key=lambda x: len(cur._bonds[x])):
+            if budget <= 0:
+                break
+            budget -= 1
+            try:
+                cand = cur.copy()
+                cand.delete_atom(n)
+                cand.flush_cache()
+                cand = normalise(cand)
+                if in_domain(cand):
+                    continue
+                found = second_description(rng, cand)
+            except Exception:  # noqa
+                continue
+            if found and classify_failure(cand, str(cand), str(found[0])) == sig:
+                cur, best, progress = cand, found, True
+                break
+    return (cur, best) if best else None
+
+
+def compare(ctx, name, base, s0, h0, kind, other, detail, mapping=None):
     """one relational case: `other` is a second description of the structure `base`."""
     from .. import wire
     try:
@@ -771,9 +814,27 @@ def compare(ctx, name, base, s0, h0, kind, other, detail):
     ctx.cov['disagreements_checked'] += 1
     if sig in (KF_COMPONENT, KF_TIE) and sum(1 for x in ctx.notes if x.startswith('known finding met')) < 12:
         ctx.notes.append(f'known finding met in the relational stream ({sig.split("/")[-1]}): {name} [{kind}]: {s0} vs {s1}')
-    ctx.fail(sig, f'{kind}: {name}: {s0!r} vs {s1!r}; ==: {eq}; hash equal: {h0 == h1}',
+    shrunk_from = None
+    if sig not in (KF_COMPONENT, KF_TIE) and s1 != s0 and not s1.startswith('<') and len(base) > 4 \
+            and _state.setdefault('shrinks', 0) < 4 and not any(f.signature == sig for f in ctx.failures):
+        _state['shrinks'] += 1
+        try:
+            res = shrink(ctx.rng, base, sig)
+        except Exception:  # noqa
+            res = None
+        if res:
+            small, (o2, mp2, kind2) = res
+            shrunk_from = f'{name}: {s0}'
+            base, other, mapping, kind = small, o2, mp2, kind2
+            s0, h0 = describe(base)
+            s1, h1 = describe(other)
+            eq = (base == other)
+            detail = 'shrunk by atom deletion'
+    ctx.fail(sig, f'{kind}: {name}: {s0!r} vs {s1!r}; ==: {eq}; hash equal: {h0 == h1}' +
+             (f' (shrunk from {shrunk_from})' if shrunk_from else ''),
              {'kind': 'two-descriptions', 'how': kind, 'name': name, 'a': wire.mol_to_ints(base), 'b': wire.mol_to_ints(other),
-              'str_a': s0, 'str_b': s1, 'detail': str(detail)[:300]})
+              'str_a': s0, 'str_b': s1, 'detail': str(detail)[:300],
+              'mapping': sorted(mapping.items()) if mapping else None})
     return False
 
 
@@ -846,7 +907,7 @@ def relational(ctx, mols=None, nvar=None):
             except Exception as e:  # noqa
                 ctx.dist('R:skipped:reorder:' + type(e).__name__)
                 continue
-            compare(ctx, name, base, s0, h0, 'renumber+reinsert', c, sorted(mapping.items())[:12])
+            compare(ctx, name, base, s0, h0, 'renumber+reinsert', c, sorted(mapping.items())[:12], mapping)
         try:
             t, m2 = reread_own(rng, base)
             compare(ctx, name, base, s0, h0, 'reread-own-random-spelling', m2, t)
@@ -889,7 +950,7 @@ def relational(ctx, mols=None, nvar=None):
                 except Exception as e:  # noqa
                     ctx.dist('R:skipped:permuted:' + type(e).__name__)
                     break
-                compare(ctx, name, base, s0, h0, 'all-permutations', c, perm)
+                compare(ctx, name, base, s0, h0, 'all-permutations', c, perm, dict(zip(nums, perm)))
         ctx.notes.append(f'exhaustive sub-domain: all n! numberings of every small molecule (<= {nmax} atoms) of the run, '
                          'for atoms_order (K) and for the canonical string (R); the property domain as a whole is sampled')
     ctx.cov['programs'] = ctx.cov.get('programs', 0) + 3  # Smiles.__str__, __eq__, __hash__
@@ -998,6 +1059,29 @@ def isomorphic(ma, mb):
     return rec(0, {}, set())
 
 
+def verify_renumbering(a, b, mapping):
+    """b is exactly a renamed by `mapping` (any insertion order): atoms, bonds, and tetrahedral labels re-expressed for
+    b's neighbour order by permutation parity. Returns a list of discrepancies (empty = verified)."""
+    bad = []
+    if sorted(mapping.values()) != sorted(b._atoms) or sorted(mapping) != sorted(a._atoms):
+        return ['atom sets differ']
+    for n, x in a._atoms.items():
+        y = b._atoms[mapping[n]]
+        if (x.atomic_number, x._isotope, x._charge, x._is_radical, x._implicit_hydrogens) != \
+                (y.atomic_number, y._isotope, y._charge, y._is_radical, y._implicit_hydrogens):
+            bad.append(f'atom {n}')
+        if {mapping[m]: bb.order for m, bb in a._bonds[n].items()} != {m: bb.order for m, bb in b._bonds[mapping[n]].items()}:
+            bad.append(f'bonds of {n}')
+        if (x._stereo is None) != (y._stereo is None):
+            bad.append(f'stereo label presence at {n}')
+        elif x._stereo is not None and all(bb.order in (1, 4) for bb in a._bonds[n].values()):
+            ea = [mapping[m] for m in a._bonds[n] if a._atoms[m].atomic_number != 1]
+            eb = [m for m in b._bonds[mapping[n]] if b._atoms[m].atomic_number != 1]
+            if sorted(ea) != sorted(eb) or (x._stereo ^ _odd(ea, eb)) != y._stereo:
+                bad.append(f'tetrahedral configuration at {n}')
+    return bad
+
+
 def probe(inp):
     from .. import wire
     from ..gen import pyx2py
@@ -1009,9 +1093,15 @@ def probe(inp):
         a, _ = wire.ints_to_mol(inp['a'], calc=True)
         b, _ = wire.ints_to_mol(inp['b'], calc=True)
     same = isomorphic(a, b)
+    note = ''
+    if inp.get('mapping'):
+        bad = verify_renumbering(a, b, {int(k): int(v) for k, v in inp['mapping']})
+        note = ' second = first renamed by the recorded mapping, atoms/bonds/tetrahedral parity re-verified: ' + \
+            ('yes' if not bad else 'NO ' + '; '.join(bad[:4]))
+        same = same and not bad
     sa, sb = str(a), str(b)
     eq = (a == b)
     he = hash(a) == hash(b)
     fails = same and (sa != sb or not eq or not he)
-    return fails, (f'two descriptions of one structure (constitution isomorphism verified independently: {same}); '
+    return fails, (f'two descriptions of one structure (constitution isomorphism verified independently: {same};{note}); '
                    f'str: {sa!r} vs {sb!r}; ==: {eq}; hash equal: {he}')
